@@ -109,6 +109,9 @@ func execC13(b []byte) vx.Verdict {
 		mu.Unlock()
 	}
 	var topoMu sync.Mutex // cut / heal / restart are serialised
+	// a restart of the work subsystem stands for a restart of the daemon: no control command is in flight across it
+	// (in the real system the old process is gone), so commands hold this lock for reading and the restart for writing
+	var inflight sync.RWMutex
 	sock := func() string { mu.Lock(); defer mu.Unlock(); return wa.Sock }
 	ctl := func() (*Ctl, error) { return DialCtl("unix", sock(), nil) }
 	cancelBeforeFinish, overlappingSubmits := false, 0
@@ -129,141 +132,149 @@ func execC13(b []byte) vx.Verdict {
 				}
 				return units[op.U%len(units)]
 			}
-			switch op.K {
-			case "sleep":
-				time.Sleep(time.Duration(op.Ms) * time.Millisecond)
-			case "submit":
-				c, err := ctl()
-				if err != nil {
-					continue
+			func() {
+				if op.K != "sleep" && op.K != "restart" && op.K != "hold" {
+					inflight.RLock()
+					defer inflight.RUnlock()
 				}
-				req := map[string]interface{}{"node": "na", "worktype": "prod"}
-				var payload []byte
-				switch op.Kind {
-				case "prod-short":
-					payload, _ = json.Marshal(ProdProgram{Chunks: []ProdChunk{{Len: 500}, {Len: 500, DelayMs: 100}}, Final: 2})
-				case "prod-long":
-					payload, _ = json.Marshal(ProdProgram{Chunks: []ProdChunk{{Len: 500}, {Len: 1, DelayMs: 600000}}, Final: 2})
-				case "cmd-short":
-					req["worktype"], req["params"] = "cmd", "'echo $$; seq 1 200; sleep 0.3; seq 1 200'"
-				case "cmd-long":
-					req["worktype"], req["params"] = "cmd", "'echo $$; seq 1 50; exec sleep 600'"
-				case "cmd-stubborn":
-					req["worktype"], req["params"] = "cmd", "'trap \"\" INT; echo $$; exec sleep 600'"
-				case "remote-long":
-					req["node"] = "nb"
-					payload, _ = json.Marshal(ProdProgram{Chunks: []ProdChunk{{Len: 500}, {Len: 1, DelayMs: 600000}}, Final: 2})
-				case "remote-absent":
-					req["node"] = "absent"
-				default:
-					payload, _ = json.Marshal(ProdProgram{Final: 2})
-				}
-				mu.Lock()
-				overlappingSubmits++
-				mu.Unlock()
-				first, _, err := c.Submit(req, payload, 30*time.Second)
-				c.Close()
-				if err != nil || !strings.HasPrefix(first, "Work unit created") {
-					continue // e.g. the control service was being restarted
-				}
-				id := unitIDFromFirst(first)
-				mu.Lock()
-				units = append(units, &c13Unit{id: id, kind: op.Kind})
-				acked = append(acked, id)
-				labels = append(labels, "submit:"+op.Kind)
-				mu.Unlock()
-			case "status", "list", "results":
-				u := pick()
-				id := "nosuchid"
-				if u != nil {
-					id = u.id
-				}
-				c, err := ctl()
-				if err != nil {
-					continue
-				}
-				line := ""
 				switch op.K {
-				case "status":
-					line, _ = c.Command("work status "+id, 20*time.Second)
-				case "list":
-					line, _ = c.Command("work list", 20*time.Second)
-				case "results":
-					line, _ = c.Command("work results "+id, 20*time.Second)
-				}
-				c.Close()
-				_ = line
-			case "cancel", "release", "force-release":
-				u := pick()
-				id := "nosuchid"
-				if u != nil {
-					id = u.id
-				}
-				c, err := ctl()
-				if err != nil {
-					continue
-				}
-				// the stubborn payload takes the 10 s SIGINT grace period before it is killed
-				line, err := c.Command("work "+op.K+" "+id, 60*time.Second)
-				c.Close()
-				if err != nil {
-					fail(vx.Violation("answered", "C13/"+op.K+"-unanswered", "client %d op %d: 'work %s %s' (%v) unanswered within 60 s: %v", ci, oi, op.K, id, kindOf(u), err))
-					return
-				}
-				if u == nil {
-					continue
-				}
-				mu.Lock()
-				labels = append(labels, op.K+":"+u.kind)
-				if op.K == "cancel" && strings.Contains(line, `"cancelled"`) {
-					u.cancelled = true
-					if strings.Contains(u.kind, "long") || strings.Contains(u.kind, "stubborn") {
-						cancelBeforeFinish = true
+				case "sleep":
+					time.Sleep(time.Duration(op.Ms) * time.Millisecond)
+				case "submit":
+					c, err := ctl()
+					if err != nil {
+						return
 					}
-				}
-				if op.K != "cancel" {
-					u.releaseAsked = true
-					if strings.Contains(line, `"released"`) {
-						u.released = true
-						if !strings.Contains(u.kind, "short") {
+					req := map[string]interface{}{"node": "na", "worktype": "prod"}
+					var payload []byte
+					switch op.Kind {
+					case "prod-short":
+						payload, _ = json.Marshal(ProdProgram{Chunks: []ProdChunk{{Len: 500}, {Len: 500, DelayMs: 100}}, Final: 2})
+					case "prod-long":
+						payload, _ = json.Marshal(ProdProgram{Chunks: []ProdChunk{{Len: 500}, {Len: 1, DelayMs: 600000}}, Final: 2})
+					case "cmd-short":
+						req["worktype"], req["params"] = "cmd", "'echo $$; seq 1 200; sleep 0.3; seq 1 200'"
+					case "cmd-long":
+						req["worktype"], req["params"] = "cmd", "'echo $$; seq 1 50; exec sleep 600'"
+					case "cmd-stubborn":
+						req["worktype"], req["params"] = "cmd", "'trap \"\" INT; echo $$; exec sleep 600'"
+					case "remote-long":
+						req["node"] = "nb"
+						payload, _ = json.Marshal(ProdProgram{Chunks: []ProdChunk{{Len: 500}, {Len: 1, DelayMs: 600000}}, Final: 2})
+					case "remote-absent":
+						req["node"] = "absent"
+					default:
+						payload, _ = json.Marshal(ProdProgram{Final: 2})
+					}
+					mu.Lock()
+					overlappingSubmits++
+					mu.Unlock()
+					first, _, err := c.Submit(req, payload, 30*time.Second)
+					c.Close()
+					if err != nil || !strings.HasPrefix(first, "Work unit created") {
+						return // e.g. the control service was being restarted
+					}
+					id := unitIDFromFirst(first)
+					mu.Lock()
+					units = append(units, &c13Unit{id: id, kind: op.Kind})
+					acked = append(acked, id)
+					labels = append(labels, "submit:"+op.Kind)
+					mu.Unlock()
+				case "status", "list", "results":
+					u := pick()
+					id := "nosuchid"
+					if u != nil {
+						id = u.id
+					}
+					c, err := ctl()
+					if err != nil {
+						return
+					}
+					line := ""
+					switch op.K {
+					case "status":
+						line, _ = c.Command("work status "+id, 20*time.Second)
+					case "list":
+						line, _ = c.Command("work list", 20*time.Second)
+					case "results":
+						line, _ = c.Command("work results "+id, 20*time.Second)
+					}
+					c.Close()
+					_ = line
+				case "cancel", "release", "force-release":
+					u := pick()
+					id := "nosuchid"
+					if u != nil {
+						id = u.id
+					}
+					c, err := ctl()
+					if err != nil {
+						return
+					}
+					// the stubborn payload takes the 10 s SIGINT grace period before it is killed
+					line, err := c.Command("work "+op.K+" "+id, 60*time.Second)
+					c.Close()
+					if err != nil {
+						fail(vx.Violation("answered", "C13/"+op.K+"-unanswered", "client %d op %d: 'work %s %s' (%v) unanswered within 60 s: %v", ci, oi, op.K, id, kindOf(u), err))
+						return
+					}
+					if u == nil {
+						return
+					}
+					mu.Lock()
+					labels = append(labels, op.K+":"+u.kind)
+					if op.K == "cancel" && strings.Contains(line, `"cancelled"`) {
+						u.cancelled = true
+						if strings.Contains(u.kind, "long") || strings.Contains(u.kind, "stubborn") {
 							cancelBeforeFinish = true
 						}
 					}
-				}
-				mu.Unlock()
-			case "hold":
-				u := pick()
-				if u == nil {
-					continue
-				}
-				lf, err := lockedfile.OpenFile(filepath.Join(wa.DataDir, "na", u.id, "status.lock"), os.O_CREATE|os.O_WRONLY, 0o600)
-				if err == nil {
-					time.Sleep(time.Duration(op.Ms) * time.Millisecond)
-					lf.Close()
-					mu.Lock()
-					labels = append(labels, "status-lock-held")
+					if op.K != "cancel" {
+						u.releaseAsked = true
+						if strings.Contains(line, `"released"`) {
+							u.released = true
+							if !strings.Contains(u.kind, "short") {
+								cancelBeforeFinish = true
+							}
+						}
+					}
 					mu.Unlock()
+				case "hold":
+					u := pick()
+					if u == nil {
+						return
+					}
+					lf, err := lockedfile.OpenFile(filepath.Join(wa.DataDir, "na", u.id, "status.lock"), os.O_CREATE|os.O_WRONLY, 0o600)
+					if err == nil {
+						time.Sleep(time.Duration(op.Ms) * time.Millisecond)
+						lf.Close()
+						mu.Lock()
+						labels = append(labels, "status-lock-held")
+						mu.Unlock()
+					}
+				case "cut":
+					topoMu.Lock()
+					link.SetUp(false)
+					topoMu.Unlock()
+					mu.Lock()
+					labels = append(labels, "link-cut")
+					mu.Unlock()
+				case "heal":
+					topoMu.Lock()
+					link.SetUp(true)
+					topoMu.Unlock()
+				case "restart":
+					inflight.Lock()
+					topoMu.Lock()
+					mu.Lock()
+					_ = wa.RestartWork(filepath.Join(dir, "a"))
+					registerCmd(wa)
+					labels = append(labels, "submitter-restarted")
+					mu.Unlock()
+					topoMu.Unlock()
+					inflight.Unlock()
 				}
-			case "cut":
-				topoMu.Lock()
-				link.SetUp(false)
-				topoMu.Unlock()
-				mu.Lock()
-				labels = append(labels, "link-cut")
-				mu.Unlock()
-			case "heal":
-				topoMu.Lock()
-				link.SetUp(true)
-				topoMu.Unlock()
-			case "restart":
-				topoMu.Lock()
-				mu.Lock()
-				_ = wa.RestartWork(filepath.Join(dir, "a"))
-				registerCmd(wa)
-				labels = append(labels, "submitter-restarted")
-				mu.Unlock()
-				topoMu.Unlock()
-			}
+			}()
 		}
 	}
 	var wg sync.WaitGroup
